@@ -1,4 +1,9 @@
 #include "multicry.h"
+#if defined(WENCRY_VERIF) && defined(WENCRY_VERIF_EVENTS)
+#include "wencry_verif_hooks.h"
+#else
+#define WV_EVENT(kind, id, a, b)
+#endif
 /*
 multiruncrypt_file:进行加解密的线程函数
 id:线程id
@@ -8,7 +13,12 @@ void multiruncrypt_file(u8_t id, Aesmode &mode)
 {
   buffergroup *iobuffer = buffergroup::get_instance();
   for (u8_t *block = iobuffer->require_buffer_entry(id); block != NULL; block = iobuffer->require_buffer_entry(id))
+  {
+    WV_EVENT(WV_RUNCRY_BEGIN, id, block, 0);
     mode.runcry(block);
+    WV_EVENT(WV_RUNCRY_END, id, block, 0);
+  }
+  WV_EVENT(WV_WORKER_EXIT, id, 0, 0);
 };
 /*
 run_multicry:进行多线程并发
@@ -20,6 +30,7 @@ void multicry_master::run_multicry(Aesmode **mode, const std::function<void(std:
   for (u8_t i = 0; i < THREADS_NUM; ++i)
     threads[i] = std::thread(multiruncrypt_file, i, std::ref((*mode[i])));
   buffergroup::get_instance()->run_buffer(printload);
+  WV_EVENT(WV_IO_DONE, THREADS_NUM, 0, 0);
   for (u8_t i = 0; i < THREADS_NUM; ++i)
     threads[i].join();
 };
